@@ -57,6 +57,7 @@ type Conf struct {
 	Prefill  int      `json:"prefill,omitempty"`                 // clients bound before the explored history starts
 	PreLease bool     `json:"lease_time_plugin_first,omitempty"` // chain: lease_time 7200s, then range
 	NoShift  bool     `json:"-"`                                 // leave the edited-range restart out of the alphabet
+	Lean     bool     `json:"lean_alphabet,omitempty"`           // requests, same-lease restart and aging only (for the largest graph)
 	MACs     []string `json:"macs"`                              // hex chaddr of the clients in the alphabet
 	Fixture  string   `json:"database_fixture,omitempty"`        // "" = the plugin creates its database; else see fixtureDB
 }
@@ -193,6 +194,9 @@ func (s *Sys) Ops() []Op {
 		// option 61: the binding is a function of the hardware address, whatever identifier the
 		// client sends - one opaque identifier shared by all clients, and the conventional
 		// htype||chaddr form
+		if s.conf.Lean {
+			continue
+		}
 		ops = append(ops, Op{Kind: "discover", MAC: m, CID: "00636c69656e74"})
 		if i == 0 {
 			ops = append(ops, Op{Kind: "request", MAC: m, CID: "01" + m})
@@ -210,7 +214,9 @@ func (s *Sys) Ops() []Op {
 	if s.conf.Lease == "1h" {
 		other = "60s"
 	}
-	ops = append(ops, Op{Kind: "restart", Lease: other})
+	if !s.conf.Lean {
+		ops = append(ops, Op{Kind: "restart", Lease: other})
+	}
 	if s.shift == 0 && !s.conf.NoShift {
 		// the operator edits the range (start and end one address higher) and restarts on the
 		// same database: start-up may refuse, but it must not keep serving outside the range
@@ -658,7 +664,7 @@ func confs(thorough bool) []Conf {
 		cs = append(cs,
 			Conf{Start: "10.0.0.0", End: "10.0.0.64", Lease: "60s", Prefill: 63, MACs: m(3)},
 			Conf{Start: "255.255.255.192", End: "255.255.255.255", Lease: "60s", Prefill: 62, MACs: m(3)},
-			Conf{Start: "10.0.0.10", End: "10.0.0.13", Lease: "60s", MACs: m(5)},
+			Conf{Start: "10.0.0.10", End: "10.0.0.13", Lease: "60s", MACs: m(5), NoShift: true, Lean: true},
 		)
 	}
 	return cs
